@@ -833,7 +833,7 @@ pub fn main(props: Vec<Property>) -> ! {
         let body = json!({"property": prop.id, "sub": v.sub, "sig": v.sig, "msg": v.msg, "case": v.case});
         let s = serde_json::to_string_pretty(&body).unwrap();
         let name = hex::encode(&blake3::hash(s.as_bytes()).as_bytes()[..8]);
-        let rdir = PathBuf::from(VERIF_ROOT).join("replays").join(prop.id);
+        let rdir = std::env::var("VERIF_REPLAY_DIR").map(PathBuf::from).unwrap_or_else(|_| PathBuf::from(VERIF_ROOT).join("replays")).join(prop.id);
         let _ = std::fs::create_dir_all(&rdir);
         let path = rdir.join(format!("{name}.json"));
         let _ = std::fs::write(&path, s);
@@ -943,7 +943,8 @@ fn write_evidence(
         "wall_s": (wall * 100.0).round() / 100.0,
         "violations": nviol as i64,
     });
-    let dir = PathBuf::from(VERIF_ROOT).join("evidence");
+    // VERIF_EVIDENCE_DIR: seeded-change trials (tools/try_mutant.sh) must not overwrite the evidence of /repo itself
+    let dir = std::env::var("VERIF_EVIDENCE_DIR").map(PathBuf::from).unwrap_or_else(|_| PathBuf::from(VERIF_ROOT).join("evidence"));
     let _ = std::fs::create_dir_all(&dir);
     let _ = std::fs::write(
         dir.join(format!("{}.json", prop.id)),
